@@ -95,7 +95,7 @@ func PoolSequential(pw *poolWriter, rng *rand.Rand, ty string, ch, l, k, steps, 
 	pool := NewPool(ty, allocator(ch, l, k))
 	pw.tid++
 	pw.Traces++
-	pw.emit(&PEvent{Op: "NewPool", Kind: ty, Ch: ch, L: l, K: k, Procs: 1, Res: "ok", Allocs: -1})
+	pw.emit(&PEvent{Op: "NewPool", Kind: KindOf(ty), Ch: ch, L: l, K: k, Procs: 1, Res: "ok", Allocs: -1})
 	ids := map[any]int{}
 	keep := []View{} // every buffer ever seen stays referenced: addresses are never recycled
 	var held []heldBuf
@@ -221,6 +221,64 @@ func PoolSequential(pw *poolWriter, rng *rand.Rand, ty string, ch, l, k, steps, 
 	return
 }
 
+// PoolZero: pools whose allocator has zero channels or zero capacity (C20, C10): get / sample-append / put cycles
+// never panic and every Get is the same inert buffer shape; a holder may also grow the buffer it got by appending
+// a non-empty buffer (it moves to new storage and can no longer be put back) and forget it: later Gets must not
+// hand that buffer out again.
+func PoolZero(pw *poolWriter, rng *rand.Rand, ty string) int {
+	n := 0
+	for _, sh := range [][3]int{{0, 0, 0}, {0, 2, 3}, {0, 0, 3}, {2, 0, 0}, {3, 0, 0}, {1, 0, 0}} {
+		pool := NewPool(ty, allocator(sh[0], sh[1], sh[2]))
+		l := sh[1]
+		if sh[0] == 0 {
+			l = 0
+		}
+		pw.tid++
+		pw.Traces++
+		pw.emit(&PEvent{Op: "NewPool", Kind: KindOf(ty), Ch: sh[0], L: l, K: sh[2], Procs: 1, Res: "ok", Allocs: -1})
+		ids := map[any]int{}
+		keep := []View{}
+		for c := 0; c < 6; c++ {
+			var v View
+			res := run(func() { v = pool.Get(c%2 == 0) })
+			if res != "ok" {
+				pw.emit(&PEvent{Op: "Get", G: 1, Res: res, Allocs: -1})
+				break
+			}
+			keep = append(keep, v)
+			id, seen := ids[v.Raw()]
+			if !seen {
+				id = len(ids) + 1
+				ids[v.Raw()] = id
+			}
+			e := &PEvent{Op: "Get", G: 1, ID: id, Res: "ok", View: obsOf(v), Allocs: -1}
+			if seen {
+				e.Reused = 1
+			}
+			pw.emit(e)
+			x := int64(1 + c)
+			v.AppendSample(x)
+			pw.emit(&PEvent{Op: "Use", G: 1, ID: id, Kind: "AppendSample", A: []int64{x}, Res: "ok", View: obsOf(v), Allocs: -1})
+			n++
+			if c%3 == 1 && sh[0] > 0 { // grow it by appending a non-empty buffer, then walk away from it
+				src := NewView(ty, allocator(sh[0], 1, 1))
+				in := make([]int64, sh[0])
+				for i := range in {
+					in[i] = int64(10 + i)
+				}
+				src.Write(KindOf(ty), in)
+				v.Append(src)
+				pw.emit(&PEvent{Op: "Use", G: 1, ID: id, Kind: "AppendGrow", A: in, Cap: v.Cap(), Res: "ok", View: obsOf(v), Allocs: -1})
+				pw.emit(&PEvent{Op: "Forget", G: 1, ID: id, Res: "ok", Allocs: -1})
+				continue
+			}
+			res = run(func() { pool.Put(v, c%2 == 1) })
+			pw.emit(&PEvent{Op: "Put", G: 1, ID: id, Res: res, Allocs: -1})
+		}
+	}
+	return n
+}
+
 // PoolForeign: Puts of buffers whose total capacity differs from the pool's must panic and modify
 // nothing (C15); a following Get must still be fresh.
 func PoolForeign(pw *poolWriter, rng *rand.Rand, ty string) int {
@@ -230,7 +288,7 @@ func PoolForeign(pw *poolWriter, rng *rand.Rand, ty string) int {
 		pool := NewPool(ty, allocator(ch, rng.Intn(k+1), k))
 		pw.tid++
 		pw.Traces++
-		pw.emit(&PEvent{Op: "NewPool", Kind: ty, Ch: ch, L: 0, K: k, Procs: 1, Res: "ok", Allocs: -1})
+		pw.emit(&PEvent{Op: "NewPool", Kind: KindOf(ty), Ch: ch, L: 0, K: k, Procs: 1, Res: "ok", Allocs: -1})
 		_ = pool
 		pool = NewPool(ty, allocator(ch, 0, k))
 		for c2 := 1; c2 <= 4; c2++ {
@@ -291,6 +349,10 @@ func PoolConcurrent(pw *poolWriter, seed int64, ty string, ch, l, k, G, M, procs
 			defer wg.Done()
 			rng := rand.New(rand.NewSource(seed*1000 + int64(g)))
 			byValue := g%2 == 0
+			pool := pool
+			if g%4 == 0 {
+				pool = pool.Copy() // this goroutine keeps its own copy of the allocator value for all its calls
+			}
 			for m := 0; m < M; m++ {
 				v := pool.Get(byValue)
 				t := atomic.AddInt64(&ticket, 1)
@@ -365,7 +427,7 @@ func PoolConcurrent(pw *poolWriter, seed int64, ty string, ch, l, k, G, M, procs
 	sort.Slice(all, func(i, j int) bool { return all[i].T < all[j].T })
 	pw.tid++
 	pw.Traces++
-	pw.emit(&PEvent{Op: "NewPool", Kind: ty, Ch: ch, L: l, K: k, Procs: G, Res: "ok", Allocs: -1})
+	pw.emit(&PEvent{Op: "NewPool", Kind: KindOf(ty), Ch: ch, L: l, K: k, Procs: G, Res: "ok", Allocs: -1})
 	ids := map[any]int{}
 	for _, e := range all {
 		if e.alias != nil {
@@ -427,6 +489,10 @@ func runPoolProfile(profile string, thorough bool, seed int64, out string) (*Sta
 			PoolCycles(pw, BuiltinTypes[(i*3)%13], sh[0], sh[1], sh[2], 10)
 			st.Extra["cycles"] += 10
 		}
+	case "poolzero":
+		for _, ty := range typesFor(false) {
+			st.Extra["zero_pool_cycles"] += PoolZero(pw, rng, ty)
+		}
 	case "poolforeign":
 		for _, ty := range BuiltinTypes {
 			st.Extra["foreign_puts"] += PoolForeign(pw, rng, ty)
@@ -439,12 +505,22 @@ func runPoolProfile(profile string, thorough bool, seed int64, out string) (*Sta
 		}
 		for i, c := range cfgs {
 			ty := BuiltinTypes[(i*5+int(seed))%len(BuiltinTypes)]
+			if i%2 == 1 { // named element types (first allocations of a type happen concurrently)
+				ty = NamedTypes[(i*3+int(seed))%len(NamedTypes)]
+			}
 			ch, k := 1+i%3, 2+i%3
 			l := []int{0, 1, k}[i%3]
 			g, r := PoolConcurrent(pw, seed+int64(i), ty, ch, l, k, c.G, c.M, c.P, i%2 == 1)
 			st.Extra["gets"] += g
 			st.Extra["reused_gets"] += r
 			st.Extra[fmt.Sprintf("G%d_M%d_P%d", c.G, c.M, c.P)] = g
+		}
+		// large buffers (>= 2^16 samples) with processor counts that do not divide the capacity
+		for i, pc := range []int{3, 7} {
+			g, r := PoolConcurrent(pw, seed+100+int64(i), []string{"int16", "MyFloat32"}[i], 2, 0, 32768, 3, 4, pc, false)
+			st.Extra["gets"] += g
+			st.Extra["reused_gets"] += r
+			st.Extra[fmt.Sprintf("big_P%d", pc)] = g
 		}
 	default:
 		return nil, fmt.Errorf("unknown pool profile %q", profile)
